@@ -688,6 +688,11 @@ func (v Int128Value) BitwiseRightShift(context ValueStaticTypeContext, other Int
 		panic(&NegativeShiftError{})
 	}
 	if !o.BigInt.IsUint64() {
+		// All bits are shifted out, only the sign remains (arithmetic shift),
+		// just like for all other shifts by at least the bit size.
+		if v.BigInt.Sign() < 0 {
+			return NewInt128ValueFromInt64(context, -1)
+		}
 		return NewInt128ValueFromInt64(context, 0)
 	}
 
